@@ -16,6 +16,7 @@ use mc::mapsys::{check_live, flush_ledger, Alpha, MapSys};
 use mc::payload::{self as pl, KeyT, Kx, ValT, Vx, KD, VD};
 use mc::setsys::{SAlpha, SetSys};
 use micromap::{Map, Set};
+use std::panic::{catch_unwind, AssertUnwindSafe};
 
 type Obs = (Option<KD>, Option<VD>);
 
@@ -142,6 +143,136 @@ macro_rules! derived {
     }};
 }
 
+/// Provided iterator methods that stop early or consume through a callback (find, position, any,
+/// all, find_map, for_each, min/max_by_key, reduce) are specialisation points too: for every
+/// prefix j and every stopping position t (t == total: nothing matches) the callback must see
+/// exactly the not-yet-yielded items, in order, each once; the result must be the item stepping
+/// gives; and the iterator must continue exactly behind the item it stopped at.
+#[derive(Debug, PartialEq, Clone, Copy)]
+#[allow(dead_code)]
+enum Res<O> {
+    Item(Option<O>),
+    Pos(Option<usize>),
+    Bool(bool),
+}
+
+macro_rules! searching {
+    ($cx:expr, $pm:expr, $name:expr, $mk:expr, $projr:expr, $order:expr) => {{
+        let order = $order;
+        let total = order.len();
+        for j in 0..=total {
+            for t in j..=total {
+                for method in 0..5u8 {
+                    let mut it = $mk;
+                    for _ in 0..j {
+                        it.next();
+                    }
+                    let mut seen = Vec::with_capacity(total);
+                    let mut calls = 0usize;
+                    let stop_at = t - j;
+                    let (mname, got, want) = match method {
+                        0 => {
+                            let r = it.find(|x| {
+                                seen.push(($projr)(x));
+                                calls += 1;
+                                calls - 1 == stop_at
+                            });
+                            ("find", Res::Item(r.map(|x| ($projr)(&x))), Res::Item(order.get(t).copied()))
+                        }
+                        1 => {
+                            let r = it.position(|x| {
+                                seen.push(($projr)(&x));
+                                calls += 1;
+                                calls - 1 == stop_at
+                            });
+                            ("position", Res::Pos(r), Res::Pos(if t < total { Some(stop_at) } else { None }))
+                        }
+                        2 => {
+                            let r = it.any(|x| {
+                                seen.push(($projr)(&x));
+                                calls += 1;
+                                calls - 1 == stop_at
+                            });
+                            ("any", Res::Bool(r), Res::Bool(t < total))
+                        }
+                        3 => {
+                            let r = it.all(|x| {
+                                seen.push(($projr)(&x));
+                                calls += 1;
+                                calls - 1 != stop_at
+                            });
+                            ("all", Res::Bool(r), Res::Bool(t >= total))
+                        }
+                        _ => {
+                            let r = it.find_map(|x| {
+                                seen.push(($projr)(&x));
+                                calls += 1;
+                                if calls - 1 == stop_at { Some(($projr)(&x)) } else { None }
+                            });
+                            ("find_map", Res::Item(r), Res::Item(order.get(t).copied()))
+                        }
+                    };
+                    let upto = (t + 1).min(total);
+                    $cx.check($pm, got == want, || format!("{}: after {j} items {mname}(stop at the {stop_at}th call) gives {got:?}, stepping gives {want:?}", $name));
+                    $cx.check($pm, seen[..] == order[j..upto], || {
+                        format!("{}: after {j} items {mname} showed its callback {seen:?}, the items to come were {:?}", $name, &order[j..upto])
+                    });
+                    let l = ExactSizeIterator::len(&it);
+                    let sh = it.size_hint();
+                    let rest: Vec<_> = it.map(|x| ($projr)(&x)).collect();
+                    $cx.check($pm, rest[..] == order[upto..] && l == total - upto && sh == (l, Some(l)), || {
+                        format!("{}: after {j} items and {mname} stopping at item {t}, len() is {l}, size_hint {sh:?} and the iterator continues with {rest:?}; expected {:?}", $name, &order[upto..])
+                    });
+                }
+            }
+            // consuming callbacks
+            for method in 0..4u8 {
+                let mut it = $mk;
+                for _ in 0..j {
+                    it.next();
+                }
+                let mut seen = Vec::with_capacity(total);
+                let mut calls = 0usize;
+                let (mname, got, want) = match method {
+                    0 => {
+                        it.for_each(|x| seen.push(($projr)(&x)));
+                        ("for_each", Res::Bool(true), Res::Bool(true))
+                    }
+                    1 => {
+                        let r = it.max_by_key(|x| {
+                            seen.push(($projr)(x));
+                            calls += 1;
+                            calls
+                        });
+                        ("max_by_key(call number)", Res::Item(r.map(|x| ($projr)(&x))), Res::Item(order[j..].last().copied()))
+                    }
+                    2 => {
+                        let r = it.min_by_key(|x| {
+                            seen.push(($projr)(x));
+                            calls += 1;
+                            calls
+                        });
+                        ("min_by_key(call number)", Res::Item(r.map(|x| ($projr)(&x))), Res::Item(order[j..].first().copied()))
+                    }
+                    _ => {
+                        let r = it.reduce(|a, b| {
+                            seen.push(($projr)(&a));
+                            calls += 1;
+                            b
+                        });
+                        if let Some(x) = &r {
+                            seen.push(($projr)(x));
+                        }
+                        ("reduce(keep the later)", Res::Item(r.map(|x| ($projr)(&x))), Res::Item(order[j..].last().copied()))
+                    }
+                };
+                $cx.check($pm, got == want, || format!("{}: after {j} items {mname} gives {got:?}, stepping gives {want:?}", $name));
+                $cx.check($pm, seen[..] == order[j..], || format!("{}: after {j} items {mname} visited {seen:?}, the items to come were {:?}", $name, &order[j..]));
+            }
+        }
+    }};
+}
+
 fn borrowing_map<const N: usize>(sys: &MapSys<Kx, Vx, N>, path: &[u32], cx: &mut Ctx) {
     let pm = C09;
     let mut b = sys.build(path, cx);
@@ -176,24 +307,27 @@ fn borrowing_map<const N: usize>(sys: &MapSys<Kx, Vx, N>, path: &[u32], cx: &mut
         counts!(cx, pm, "iter()", m.iter(), total);
         clones!(cx, pm, "iter()", m.iter(), pkv, &o1);
         derived!(cx, pm, "iter()", m.iter(), pkv, &o1);
+        searching!(cx, pm, "iter()", m.iter(), |x: &(&Kx, &Vx)| -> Obs { (Some(x.0.desc()), Some(x.1.desc())) }, &o1);
         let k1 = walk!(cx, pm, "keys()", m.keys(), pk, &want_k);
         let k2 = walk!(cx, pm, "keys() again", m.keys(), pk, &want_k);
         cx.check(pm, k1 == k2, || "keys(): two traversals differ".to_string());
         counts!(cx, pm, "keys()", m.keys(), total);
         clones!(cx, pm, "keys()", m.keys(), pk, &k1);
         derived!(cx, pm, "keys()", m.keys(), pk, &k1);
+        searching!(cx, pm, "keys()", m.keys(), |x: &&Kx| -> Obs { (Some(x.desc()), None) }, &k1);
         let v1 = walk!(cx, pm, "values()", m.values(), pv, &want_v);
         let v2 = walk!(cx, pm, "values() again", m.values(), pv, &want_v);
         cx.check(pm, v1 == v2, || "values(): two traversals differ".to_string());
         counts!(cx, pm, "values()", m.values(), total);
         clones!(cx, pm, "values()", m.values(), pv, &v1);
         derived!(cx, pm, "values()", m.values(), pv, &v1);
+        searching!(cx, pm, "values()", m.values(), |x: &&Vx| -> Obs { (None, Some(x.desc())) }, &v1);
         // keys()/values() are projections of iter(): same order
         let proj_ok = o1.iter().map(|o| (o.0, None)).collect::<Vec<Obs>>() == k1 && o1.iter().map(|o| (None, o.1)).collect::<Vec<Obs>>() == v1;
         cx.check(pm, proj_ok, || "keys()/values() do not follow the order of iter()".to_string());
         // references point inside the container value
         for (k, v) in m.iter() {
-            cx.check(C06, inside(k as *const Kx as usize, 16) && inside(v as *const Vx as usize, 16), || {
+            cx.check(C06, inside(k as *const Kx as usize, std::mem::size_of::<Kx>()) && inside(v as *const Vx as usize, std::mem::size_of::<Vx>()), || {
                 "iter() yields a reference outside the container value".to_string()
             });
         }
@@ -216,9 +350,11 @@ fn borrowing_map<const N: usize>(sys: &MapSys<Kx, Vx, N>, path: &[u32], cx: &mut
         cx.check(pm, o1 == o2, || "iter_mut(): two traversals differ".to_string());
         counts!(cx, pm, "iter_mut()", m.iter_mut(), total);
         derived!(cx, pm, "iter_mut()", m.iter_mut(), pkv, &o1);
+        searching!(cx, pm, "iter_mut()", m.iter_mut(), |x: &(&Kx, &mut Vx)| -> Obs { (Some(x.0.desc()), Some(x.1.desc())) }, &o1);
         let v1 = walk!(cx, pm, "values_mut()", m.values_mut(), pv, &want_v);
         counts!(cx, pm, "values_mut()", m.values_mut(), total);
         derived!(cx, pm, "values_mut()", m.values_mut(), pv, &v1);
+        searching!(cx, pm, "values_mut()", m.values_mut(), |x: &&mut Vx| -> Obs { (None, Some(x.desc())) }, &v1);
         cx.check(pm, o1.iter().map(|o| (None, o.1)).collect::<Vec<Obs>>() == v1, || "values_mut() does not follow the order of iter_mut()".to_string());
         let d: micromap::IterMut<'_, Kx, Vx> = Default::default();
         cx.check(pm, d.len() == 0, || "IterMut::default() is not empty".to_string());
@@ -294,6 +430,7 @@ fn borrowing_set<const N: usize>(sys: &SetSys<Kx, N>, path: &[u32], cx: &mut Ctx
         counts!(cx, pm, "Set::iter()", s.iter(), total);
         clones!(cx, pm, "Set::iter()", s.iter(), pk, &o1);
         derived!(cx, pm, "Set::iter()", s.iter(), pk, &o1);
+        searching!(cx, pm, "Set::iter()", s.iter(), |x: &&Kx| -> Obs { (Some(x.desc()), None) }, &o1);
     }
     flush_ledger(cx, pm | C02, "Set iteration");
     sys.teardown(b, cx, C02);
@@ -496,7 +633,236 @@ fn consume_map_once<const N: usize>(msys: &MapSys<Kx, Vx, N>, path: &[u32], kind
     check_live(cx, C02 | pm, Vec::new(), &leak_ok, "at the end");
 }
 
-/// nth()/last()/fold() on the consuming iterators and drains, against the order observed by
+/// Every provided-method mode of `drive_modes!`: 0 nth(n)+next, 1 last, 2 fold, 3 find, 4 position,
+/// 5 any, 6 all, 7 find_map (3-7 stop at the n-th callback call; n == remaining: no match),
+/// 8 for_each, 9 max_by_key, 10 min_by_key, 11 reduce, 12 collect into a Vec; and with a callback that
+/// PANICS at its n-th call: 13 fold, 14 for_each, 15 find (the iterator is then used further).
+const MODES: u8 = 16;
+const MODE_NAMES: [&str; MODES as usize] = ["nth(n)", "last()", "fold", "find", "position", "any", "all", "find_map", "for_each", "max_by_key", "min_by_key", "reduce",
+    "collect::<Vec>", "fold with a panicking closure", "for_each with a panicking closure", "find with a panicking predicate"];
+
+fn mode_applies(mode: u8, n: usize, rem: usize) -> bool {
+    match mode {
+        0 => true,
+        1 | 2 | 8..=12 => n == 0,
+        3..=7 => n <= rem,
+        _ => n < rem,
+    }
+}
+
+/// Drive one consuming iterator `$it` (already built) through `j` steps and then one provided method;
+/// judge against `$order`, the order stepping with next() gives. `$projr` projects `&Item`.
+macro_rules! drive_modes {
+    ($cx:expr, $pm:expr, $kind:expr, $it:expr, $projr:expr, $order:expr, $j:expr, $n:expr, $mode:expr) => {{
+        let (cx, pm, kind, order, j, n, mode) = ($cx, $pm, $kind, $order, $j, $n, $mode);
+        let total = order.len();
+        let mut it = $it;
+        for _ in 0..j {
+            it.next();
+        }
+        match mode {
+            0 => {
+                let r = it.nth(n).map(|x| ($projr)(&x));
+                let want = order.get(j + n).copied();
+                cx.check(pm, r == want, || format!("{kind:?}: after {j} items nth({n}) gives {r:?}, stepping gives {want:?}"));
+                let rem = total.saturating_sub(j + n + 1);
+                let l = ExactSizeIterator::len(&it);
+                let sh = it.size_hint();
+                cx.check(pm, l == rem && sh == (rem, Some(rem)), || format!("{kind:?}: after {j} items and nth({n}) len() is {l} / size_hint {sh:?}, expected {rem}"));
+                let nx = it.next().map(|x| ($projr)(&x));
+                let want = order.get(j + n + 1).copied();
+                cx.check(pm, nx == want, || format!("{kind:?}: after {j} items and nth({n}) next() gives {nx:?}, expected {want:?}"));
+                if r.is_none() {
+                    let again = it.next().map(|x| ($projr)(&x));
+                    cx.check(pm, again.is_none(), || format!("{kind:?}: yields {again:?} after nth({n}) had reported the end"));
+                }
+            }
+            1 => {
+                let l = it.last().map(|x| ($projr)(&x));
+                let want = if j < total { order.last().copied() } else { None };
+                cx.check(pm, l == want, || format!("{kind:?}: after {j} items last() gives {l:?}, expected {want:?}"));
+            }
+            2 => {
+                let folded = it.fold(Vec::new(), |mut acc, x| {
+                    acc.push(($projr)(&x));
+                    acc
+                });
+                cx.check(pm, folded[..] == order[j..], || format!("{kind:?}: after {j} items fold visits {folded:?}, stepping gives {:?}", &order[j..]));
+            }
+            3..=7 => {
+                let mut seen = Vec::new();
+                let mut calls = 0usize;
+                let t = j + n;
+                let (got, want) = match mode {
+                    3 => {
+                        let r = it.find(|x| {
+                            seen.push(($projr)(x));
+                            calls += 1;
+                            calls - 1 == n
+                        });
+                        (Res::Item(r.map(|x| ($projr)(&x))), Res::Item(order.get(t).copied()))
+                    }
+                    4 => {
+                        let r = it.position(|x| {
+                            seen.push(($projr)(&x));
+                            calls += 1;
+                            calls - 1 == n
+                        });
+                        (Res::Pos(r), Res::Pos(if t < total { Some(n) } else { None }))
+                    }
+                    5 => {
+                        let r = it.any(|x| {
+                            seen.push(($projr)(&x));
+                            calls += 1;
+                            calls - 1 == n
+                        });
+                        (Res::Bool(r), Res::Bool(t < total))
+                    }
+                    6 => {
+                        let r = it.all(|x| {
+                            seen.push(($projr)(&x));
+                            calls += 1;
+                            calls - 1 != n
+                        });
+                        (Res::Bool(r), Res::Bool(t >= total))
+                    }
+                    _ => {
+                        let r = it.find_map(|x| {
+                            seen.push(($projr)(&x));
+                            calls += 1;
+                            if calls - 1 == n { Some(($projr)(&x)) } else { None }
+                        });
+                        (Res::Item(r), Res::Item(order.get(t).copied()))
+                    }
+                };
+                let mname = MODE_NAMES[mode as usize];
+                let upto = (t + 1).min(total);
+                cx.check(pm, got == want, || format!("{kind:?}: after {j} items {mname}(stop at call {n}) gives {got:?}, stepping gives {want:?}"));
+                cx.check(pm, seen[..] == order[j..upto], || format!("{kind:?}: after {j} items {mname} showed its callback {seen:?}, the items to come were {:?}", &order[j..upto]));
+                let l = ExactSizeIterator::len(&it);
+                let sh = it.size_hint();
+                let rest: Vec<_> = it.map(|x| ($projr)(&x)).collect();
+                cx.check(pm, rest[..] == order[upto..] && l == total - upto && sh == (l, Some(l)), || {
+                    format!("{kind:?}: after {j} items and {mname} stopping at item {t}, len() is {l}, size_hint {sh:?} and the iterator continues with {rest:?}; expected {:?}", &order[upto..])
+                });
+            }
+            8..=12 => {
+                let mut seen = Vec::new();
+                let mut calls = 0usize;
+                let (got, want) = match mode {
+                    8 => {
+                        it.for_each(|x| seen.push(($projr)(&x)));
+                        (None, None)
+                    }
+                    9 => {
+                        let r = it.max_by_key(|x| {
+                            seen.push(($projr)(x));
+                            calls += 1;
+                            calls
+                        });
+                        (r.map(|x| ($projr)(&x)), order[j..].last().copied())
+                    }
+                    10 => {
+                        let r = it.min_by_key(|x| {
+                            seen.push(($projr)(x));
+                            calls += 1;
+                            calls
+                        });
+                        (r.map(|x| ($projr)(&x)), order[j..].first().copied())
+                    }
+                    11 => {
+                        let r = it.reduce(|a, b| {
+                            seen.push(($projr)(&a));
+                            b
+                        });
+                        if let Some(x) = &r {
+                            seen.push(($projr)(x));
+                        }
+                        (r.map(|x| ($projr)(&x)), order[j..].last().copied())
+                    }
+                    _ => {
+                        let v: Vec<_> = it.collect();
+                        seen.extend(v.iter().map(|x| ($projr)(x)));
+                        (None, None)
+                    }
+                };
+                let mname = MODE_NAMES[mode as usize];
+                cx.check(pm, got == want, || format!("{kind:?}: after {j} items {mname} gives {got:?}, stepping gives {want:?}"));
+                cx.check(pm, seen[..] == order[j..], || format!("{kind:?}: after {j} items {mname} visited {seen:?}, the items to come were {:?}", &order[j..]));
+            }
+            _ => {
+                // a callback that panics at its n-th call: nothing may be destroyed twice or used
+                // after its destruction (judged by the ledger below); what a surviving iterator
+                // yields afterwards must still be not-yet-yielded entries, each at most once
+                let mut seen = Vec::new();
+                let mut calls = 0usize;
+                let pmx = C02 | C04;
+                match mode {
+                    13 => {
+                        let r = catch_unwind(AssertUnwindSafe(|| {
+                            it.fold(0usize, |acc, x| {
+                                seen.push(($projr)(&x));
+                                calls += 1;
+                                if calls - 1 == n {
+                                    panic!("fold closure");
+                                }
+                                acc + 1
+                            })
+                        }));
+                        cx.check(pmx, r.is_err(), || format!("{kind:?}: fold swallowed the panic of its closure"));
+                    }
+                    14 => {
+                        let r = catch_unwind(AssertUnwindSafe(|| {
+                            it.for_each(|x| {
+                                seen.push(($projr)(&x));
+                                calls += 1;
+                                if calls - 1 == n {
+                                    panic!("for_each closure");
+                                }
+                            })
+                        }));
+                        cx.check(pmx, r.is_err(), || format!("{kind:?}: for_each swallowed the panic of its closure"));
+                    }
+                    _ => {
+                        let r = catch_unwind(AssertUnwindSafe(|| {
+                            it.find(|x| {
+                                seen.push(($projr)(x));
+                                calls += 1;
+                                if calls - 1 == n {
+                                    panic!("find predicate");
+                                }
+                                false
+                            })
+                            .is_some()
+                        }));
+                        cx.check(pmx, r.is_err(), || format!("{kind:?}: find swallowed the panic of its predicate"));
+                        let l = ExactSizeIterator::len(&it);
+                        let rest: Vec<_> = it.map(|x| ($projr)(&x)).collect();
+                        // (projections of different entries may coincide: judge as multisets)
+                        let mut pool = order[j..].to_vec();
+                        let mut fresh = true;
+                        for x in seen.iter().chain(rest.iter()) {
+                            match pool.iter().position(|p| p == x) {
+                                Some(i) => {
+                                    pool.swap_remove(i);
+                                }
+                                None => fresh = false,
+                            }
+                        }
+                        cx.check(pmx, fresh && l == rest.len(), || {
+                            format!("{kind:?}: after {j} items and a find whose predicate panicked at call {n} (having seen {seen:?}) len() is {l} and the iterator yields {rest:?}")
+                        });
+                    }
+                }
+                cx.check(pmx, seen[..] == order[j..(j + n + 1).min(total)], || {
+                    format!("{kind:?}: after {j} items the callback was shown {seen:?} before panicking at call {n}; the items to come were {:?}", &order[j..])
+                });
+            }
+        }
+    }};
+}
+
+/// Provided iterator methods on the consuming iterators and drains, against the order observed by
 /// stepping a freshly rebuilt container with next() (rebuilds are deterministic).
 fn derived_consuming<const N: usize>(msys: &MapSys<Kx, Vx, N>, ssys_path: Option<(&SetSys<Kx, N>, &[u32])>, path: &[u32], cx: &mut Ctx) {
     let pm = C10;
@@ -516,68 +882,34 @@ fn derived_consuming<const N: usize>(msys: &MapSys<Kx, Vx, N>, ssys_path: Option
         let total = order.len();
         for j in 0..=total {
             for n in 0..=(total - j + 1) {
-                for mode in 0..3u8 {
-                    // mode 0: nth(n) then next(); mode 1 (n == 0 only): last(); mode 2 (n == 0 only): fold
-                    if mode > 0 && n > 0 {
+                for mode in 0..MODES {
+                    if !mode_applies(mode, n, total - j) {
                         continue;
                     }
-                    cx.here.op = format!("{kind:?}: after {j} items {}", ["nth(n)", "last()", "fold"][mode as usize]);
+                    cx.here.op = format!("{kind:?}: after {j} items {} (n = {n})", MODE_NAMES[mode as usize]);
                     cx.evaluations += 1;
                     let mut b = msys.build(path, cx);
+                    let stored_ids = b.model.stored_ids();
                     pl::take_violations();
-                    macro_rules! drive {
-                        ($it:expr, $proj:expr) => {{
-                            let mut it = $it;
-                            for _ in 0..j {
-                                it.next();
-                            }
-                            match mode {
-                                0 => {
-                                    let r = it.nth(n).map($proj);
-                                    let want = order.get(j + n).copied();
-                                    cx.check(pm, r == want, || format!("{kind:?}: after {j} items nth({n}) gives {r:?}, stepping gives {want:?}"));
-                                    let rem = total.saturating_sub(j + n + 1);
-                                    let l = ExactSizeIterator::len(&it);
-                                    let sh = it.size_hint();
-                                    cx.check(pm, l == rem && sh == (rem, Some(rem)), || format!("{kind:?}: after {j} items and nth({n}) len() is {l} / size_hint {sh:?}, expected {rem}"));
-                                    let nx = it.next().map($proj);
-                                    let want = order.get(j + n + 1).copied();
-                                    cx.check(pm, nx == want, || format!("{kind:?}: after {j} items and nth({n}) next() gives {nx:?}, expected {want:?}"));
-                                    if r.is_none() {
-                                        let again = it.next().map($proj);
-                                        cx.check(pm, again.is_none(), || format!("{kind:?}: yields {again:?} after nth({n}) had reported the end"));
-                                    }
-                                }
-                                1 => {
-                                    let l = it.last().map($proj);
-                                    let want = if j < total { order.last().copied() } else { None };
-                                    cx.check(pm, l == want, || format!("{kind:?}: after {j} items last() gives {l:?}, expected {want:?}"));
-                                }
-                                _ => {
-                                    let folded: Vec<(u8, u8, u8)> = it.fold(Vec::new(), |mut acc, x| {
-                                        acc.push(($proj)(x));
-                                        acc
-                                    });
-                                    cx.check(pm, folded[..] == order[j..], || format!("{kind:?}: after {j} items fold visits {folded:?}, stepping gives {:?}", &order[j..]));
-                                }
-                            }
-                        }};
-                    }
                     match kind {
-                        Kind::IntoIter => drive!(std::mem::take(&mut b.bx.c).into_iter(), |(k, v): (Kx, Vx)| (k.k, k.tag, v.v)),
-                        Kind::IntoKeys => drive!(std::mem::take(&mut b.bx.c).into_keys(), |k: Kx| (k.k, k.tag, 0)),
-                        Kind::IntoValues => drive!(std::mem::take(&mut b.bx.c).into_values(), |v: Vx| (0, 0, v.v)),
+                        Kind::IntoIter => drive_modes!(&mut *cx, pm, kind, std::mem::take(&mut b.bx.c).into_iter(), |x: &(Kx, Vx)| (x.0.k, x.0.tag, x.1.v), &order, j, n, mode),
+                        Kind::IntoKeys => drive_modes!(&mut *cx, pm, kind, std::mem::take(&mut b.bx.c).into_keys(), |x: &Kx| (x.k, x.tag, 0u8), &order, j, n, mode),
+                        Kind::IntoValues => drive_modes!(&mut *cx, pm, kind, std::mem::take(&mut b.bx.c).into_values(), |x: &Vx| (0u8, 0u8, x.v), &order, j, n, mode),
                         _ => {
-                            drive!(b.bx.c.drain(), |(k, v): (Kx, Vx)| (k.k, k.tag, v.v));
-                            cx.check(pm, b.bx.c.is_empty(), || "map not empty after the drain was dropped".to_string());
+                            drive_modes!(&mut *cx, pm, kind, b.bx.c.drain(), |x: &(Kx, Vx)| (x.0.k, x.0.tag, x.1.v), &order, j, n, mode);
+                            cx.check(pm, b.bx.c.is_empty() && b.bx.c.iter().next().is_none(), || "map not empty after the drain was dropped".to_string());
                         }
                     }
-                    flush_ledger(cx, C02 | pm, "derived iterator methods");
+                    let pmx = if mode >= 13 { C02 | C04 } else { C02 | pm };
+                    flush_ledger(cx, pmx, "provided iterator methods");
+                    mc::mapsys::invariants(&b.bx.c, cx, pmx);
                     let mc::mapsys::Built { bx, probes, .. } = b;
                     drop(bx);
                     drop(probes);
-                    flush_ledger(cx, C02 | pm, "dropping after derived iterator methods");
-                    check_live(cx, C02 | pm, Vec::new(), &[], "after nth/last/fold on a consuming iterator");
+                    flush_ledger(cx, pmx, "dropping after provided iterator methods");
+                    // unwinding out of a callback may leak (C04 allows that), never destroy twice
+                    let leak_ok: Vec<u32> = if mode >= 13 { stored_ids } else { Vec::new() };
+                    check_live(cx, pmx, Vec::new(), &leak_ok, "after a provided method of a consuming iterator");
                 }
             }
         }
@@ -596,34 +928,34 @@ fn derived_consuming<const N: usize>(msys: &MapSys<Kx, Vx, N>, ssys_path: Option
             let total = order.len();
             for j in 0..=total {
                 for n in 0..=(total - j + 1) {
-                    cx.here.op = format!("{kind:?}: after {j} items nth({n})");
-                    cx.evaluations += 1;
-                    let mut b = ssys.build(spath, cx);
-                    pl::take_violations();
-                    macro_rules! drive_s {
-                        ($it:expr) => {{
-                            let mut it = $it;
-                            for _ in 0..j {
-                                it.next();
-                            }
-                            let r = it.nth(n).map(|k: Kx| (k.k, k.tag));
-                            let want = order.get(j + n).copied();
-                            cx.check(pm, r == want, || format!("{kind:?}: after {j} items nth({n}) gives {r:?}, stepping gives {want:?}"));
-                            let rem = total.saturating_sub(j + n + 1);
-                            let l = ExactSizeIterator::len(&it);
-                            cx.check(pm, l == rem, || format!("{kind:?}: after {j} items and nth({n}) len() is {l}, expected {rem}"));
-                            let nx = it.next().map(|k: Kx| (k.k, k.tag));
-                            let want = order.get(j + n + 1).copied();
-                            cx.check(pm, nx == want, || format!("{kind:?}: after {j} items and nth({n}) next() gives {nx:?}, expected {want:?}"));
-                        }};
+                    for mode in 0..MODES {
+                        if !mode_applies(mode, n, total - j) {
+                            continue;
+                        }
+                        cx.here.op = format!("{kind:?}: after {j} items {} (n = {n})", MODE_NAMES[mode as usize]);
+                        cx.evaluations += 1;
+                        let mut b = ssys.build(spath, cx);
+                        pl::take_violations();
+                        if kind == Kind::SetDrain {
+                            drive_modes!(&mut *cx, pm, kind, b.bx.c.drain(), |x: &Kx| (x.k, x.tag), &order, j, n, mode);
+                            cx.check(pm, b.bx.c.is_empty() && b.bx.c.iter().next().is_none(), || "set not empty after the drain was dropped".to_string());
+                        } else {
+                            drive_modes!(&mut *cx, pm, kind, std::mem::take(&mut b.bx.c).into_iter(), |x: &Kx| (x.k, x.tag), &order, j, n, mode);
+                        }
+                        let pmx = if mode >= 13 { C02 | C04 } else { C02 | pm };
+                        flush_ledger(cx, pmx, "provided iterator methods (set)");
+                        if mode >= 13 {
+                            // leaks are allowed after unwinding: tear down by the ledger only
+                            let stored: Vec<u32> = b.model.stored_ids();
+                            let mc::setsys::SBuilt { bx, probes, .. } = b;
+                            drop(bx);
+                            drop(probes);
+                            flush_ledger(cx, pmx, "dropping after provided iterator methods (set)");
+                            check_live(cx, pmx, Vec::new(), &stored, "after a panicking callback of a consuming set iterator");
+                        } else {
+                            ssys.teardown(b, cx, C02 | pm);
+                        }
                     }
-                    if kind == Kind::SetDrain {
-                        drive_s!(b.bx.c.drain());
-                    } else {
-                        drive_s!(std::mem::take(&mut b.bx.c).into_iter());
-                    }
-                    flush_ledger(cx, C02 | pm, "derived iterator methods (set)");
-                    ssys.teardown(b, cx, C02 | pm);
                 }
             }
         }
